@@ -1993,6 +1993,14 @@ process(PseudoTcpSocket *self, Segment *seg)
   if (!priv->support_fin_ack)
     bIgnoreData |= (priv->shutdown != SD_NONE);
 
+  /* Data that overtakes the peer's connect segment cannot be placed in the
+   * receive buffer yet: the connect segment takes up sequence space but no
+   * buffer space, so the data's offset depends on a length we have not seen.
+   * Leave it to be retransmitted. */
+  if (!(seg->flags & FLAG_CTL) &&
+      (priv->state == PSEUDO_TCP_LISTEN || priv->state == PSEUDO_TCP_SYN_SENT))
+    seg->len = 0;
+
   bNewData = FALSE;
 
   if (seg->len > 0) {
